@@ -65,6 +65,13 @@ func parseVersion1(reader *bufio.Reader) (*Header, error) {
 		return nil, ErrCantReadProtocolVersionAndCommand
 	}
 	tokens := strings.Split(line[:len(line)-2], SEPARATOR)
+	// "PROXY UNKNOWN": the rest of the line is ignored, the real addresses are kept
+	if len(tokens) >= 2 && tokens[1] == "UNKNOWN" {
+		header := initVersion1()
+		header.TransportProtocol = UNSPEC
+		state.ProxyNormalV1Header.Inc(1)
+		return header, nil
+	}
 	if len(tokens) < 6 {
 		state.ProxyErrInvalidHeader.Inc(1)
 		return nil, ErrCantReadProtocolVersionAndCommand
@@ -79,7 +86,8 @@ func parseVersion1(reader *bufio.Reader) (*Header, error) {
 	case "TCP6":
 		header.TransportProtocol = TCPv6
 	default:
-		header.TransportProtocol = UNSPEC
+		state.ProxyErrInvalidHeader.Inc(1)
+		return nil, ErrUnsupportedAddressFamilyAndProtocol
 	}
 
 	// Read addresses and ports
